@@ -497,6 +497,11 @@ class RaggedView2:
                                   np.ones_like(self.lengths))
 
         # starts, lengths, col_step = (self.starts, self.lengths, self.col_step)
+        # bounds and steps beyond the longest row mean the same as the longest row's length + 1;
+        # clamping them keeps the arithmetic below inside the index dtype (e.g. ra[:, :2**40] with 32-bit indices)
+        limit = int(np.max(self.lengths, initial=0)) + 1
+        col_slice = slice(*(None if b is None else max(min(b, limit), -limit)
+                            for b in (col_slice.start, col_slice.stop, col_slice.step)))
         step = 1 if col_slice.step is None else col_slice.step
         if step > 0:
             return self._pos_col_slice(slice(col_slice.start, col_slice.stop, step))
